@@ -32,8 +32,9 @@ pub enum Op {
     ResizeWith(usize),
     PopIf,
     DedupByKey,
-    /// `splice(start..end, ids)`, `pulls` × `next()`, drop of the `Splice`
-    Splice(usize, usize, Vec<u64>, usize),
+    /// `splice(start..end, ids)`, `pulls` × `next()`, drop of the `Splice`; the last field caps the lower
+    /// bound `replace_with.size_hint()` reports (large: exact; small: the `collected` fallback of `Splice::drop` runs)
+    Splice(usize, usize, Vec<u64>, usize, usize),
 }
 
 fn script_text(s: &[u8]) -> String {
@@ -76,7 +77,7 @@ impl Op {
     }
     /// is the operation replayed on the Lean model (correspondence), or checked by the oracles only?
     pub fn modelled(&self) -> bool {
-        !matches!(self, Op::Splice(..))
+        true
     }
     /// does the operation take the vector by value?
     pub fn consumes(&self) -> bool {
@@ -98,7 +99,7 @@ impl Op {
             Op::Reserve(n) | Op::ReserveExact(n) | Op::ResizeWith(n) => format!(" {n}"),
             Op::ShrinkToFit | Op::PopIf | Op::DedupByKey => String::new(),
             Op::ExtendWithinClone(a, b) => format!(" {a} {b}"),
-            Op::Splice(a, b, ids, k) => format!(" {a} {b} src={} pulls={k}", csv(ids)),
+            Op::Splice(a, b, ids, k, h) => format!(" {a} {b} src={} pulls={k} hint={h}", csv(ids)),
         }
     }
     /// does the operation need spare capacity / is it unavailable on `BumpBox<[T]>`?
@@ -119,7 +120,7 @@ impl Op {
             Op::Reserve(n) | Op::ReserveExact(n) => *n,
             Op::ExtendWithinClone(a, b) => if a <= b && *b <= len { b - a } else { 0 },
             Op::ResizeWith(n) => n.saturating_sub(len),
-            Op::Splice(a, b, ids, _) => if a <= b && *b <= len { ids.len().saturating_sub(b - a) } else { 0 },
+            Op::Splice(a, b, ids, _, _) => if a <= b && *b <= len { ids.len().saturating_sub(b - a) } else { 0 },
             _ => 0,
         }
     }
@@ -300,7 +301,7 @@ pub fn std_apply(v: &mut Vec<u64>, op: &Op, o: &[Oc]) -> Result<(String, usize),
             v.dedup_by_key(|_| next());
             String::new()
         }
-        Op::Splice(a, b, ids, pulls) => {
+        Op::Splice(a, b, ids, pulls, _) => {
             if a > b || *b > v.len() {
                 return Err(());
             }
@@ -316,6 +317,21 @@ pub fn std_apply(v: &mut Vec<u64>, op: &Op, o: &[Oc]) -> Result<(String, usize),
     };
     drop(next);
     Ok((r, consumed.get()))
+}
+
+/// an iterator whose `size_hint` lower bound is capped (an honest under-estimate)
+pub struct Hinted<I> {
+    pub inner: I,
+    pub cap: usize,
+}
+impl<I: ExactSizeIterator> Iterator for Hinted<I> {
+    type Item = I::Item;
+    fn next(&mut self) -> Option<I::Item> {
+        self.inner.next()
+    }
+    fn size_hint(&self) -> (usize, Option<usize>) {
+        (self.inner.len().min(self.cap), None)
+    }
 }
 
 pub type DynVec<'a> = Box<dyn VecDyn<'a> + 'a>;
@@ -542,9 +558,9 @@ macro_rules! impl_extra {
                         self.shrink_to_fit();
                         String::new()
                     }
-                    Op::Splice(a, b, ids, pulls) => {
+                    Op::Splice(a, b, ids, pulls, hint) => {
                         let src: Vec<T> = ids.iter().map(|i| T::make(*i)).collect();
-                        let mut sp = self.splice(*a..*b, src);
+                        let mut sp = self.splice(*a..*b, Hinted { inner: src.into_iter(), cap: *hint });
                         let mut ys = Vec::new();
                         for _ in 0..*pulls {
                             ys.push(match sp.next() {
